@@ -594,6 +594,12 @@ func runC12(c *core.Case) *core.Result {
 				oreq := other.cl.BuildRequest(other.own)
 				w.ledger.Offer(oreq)
 				ex := other.cl.Send(oreq)
+				if ex.Out.TimedOut {
+					// one watchdog expiry can be the machine; a request that waits for the held key
+					// also waits the second time (the gate is still closed)
+					c.Count("independence_request_retried_after_watchdog", 1)
+					ex = other.cl.Send(other.cl.BuildRequest(other.own))
+				}
 				// ... and so must requests on MANY other keys (whatever the lock registry does
 				// with names - hashing, striping, prefixes - distinct keys never wait for each other)
 				blocked := ""
@@ -610,6 +616,10 @@ func runC12(c *core.Case) *core.Result {
 					preq := prober.BuildRequest(pd)
 					w.ledger.Offer(preq)
 					pex := prober.Send(preq)
+					if pex.Out.TimedOut {
+						c.Count("independence_request_retried_after_watchdog", 1)
+						pex = prober.Send(prober.BuildRequest(pd))
+					}
 					switch {
 					case pex.Out.TimedOut:
 						blocked = fmt.Sprintf("a request creating key %q did not return", pk)
